@@ -15,9 +15,9 @@ from harness import tracecheck
 NAMES = ['polyB', 'A1', 'dd', 'C']    # multi-character names: a key string must not be iterated
 
 
-def cfg(n, sym, nxt, edge=True):
+def cfg(n, sym, nxt, edge=True, vals='MC_Vals'):
     return '\n'.join([
-        'CONSTANTS N = %d' % n, 'Sym = %s' % ('TRUE' if sym else 'FALSE'), 'Vals <- MC_Vals',
+        'CONSTANTS N = %d' % n, 'Sym = %s' % ('TRUE' if sym else 'FALSE'), 'Vals <- %s' % vals,
         'INIT MCInit', 'NEXT %s' % nxt, 'VIEW View',
         'INVARIANTS TypeOK AliasCoherent RefinesMap Symmetric Isolation ExportSymmetric',
         'PROPERTIES SetUnsetOnlyFillsUnset ApplyOutLeavesOriginal',
@@ -224,8 +224,8 @@ class TablesAdapter(Adapter):
         return out
 
 
-def model(ctx, name, n, sym, nxt, edge, workers=1):
-    res = run_tlc('MC_Tables', cfg(n, sym, nxt, edge), ctx.tmp, workers=workers, seed=ctx.seed)
+def model(ctx, name, n, sym, nxt, edge, workers=1, vals='MC_Vals'):
+    res = run_tlc('MC_Tables', cfg(n, sym, nxt, edge, vals), ctx.tmp, workers=workers, seed=ctx.seed)
     require_clean(res, name)
     ctx.add_tlc(name, res, exhaustive=True)
     return res
@@ -303,6 +303,10 @@ def run(ctx):
     edges = r.records.get('EDGE', [])
     ctx.sample({'edge': edges[len(edges) // 2]})
     ctx.sample({'edge': edges[-1]})
+    # PairTable, 2 types, symmetric=False: (a,b) and (b,a) are different pairs (edges and random walks; the path enumeration
+    # is left to the symmetric table)
+    r = model(ctx, 'PairTable N=2 non-symmetric', 2, False, 'NextPT', True, vals='MC_Vals' if thorough else 'MC_Vals1')
+    replay_graph(ctx, r, 2, False, 'replay.PairTable.N2.nonsym', 1, 6000 if thorough else 400, 10, budget=200000)
     # ValueTable, 3 types
     r = model(ctx, 'ValueTable N=3', 3, True, 'NextVT', True)
     replay_graph(ctx, r, 3, True, 'replay.ValueTable.N3', 3 if thorough else 2, 3000 if thorough else 500, 12)
